@@ -20,7 +20,7 @@ def tag_payload(reg: int, count: int) -> bytes:
 
 
 COMMON = ['valid', 'drop', 'valid@.5T', 'valid@T-e', 'valid@T+e', 'valid@1.5T', 'garbage', 'short', 'badsum',
-          'foreign', 'exc2', 'frag2@.4T', 'frag2@1.2T', 'frag1', 'dup', '2xinvalid', 'invalid+valid']
+          'foreign', 'exc2', 'exc12', 'frag2@.4T', 'frag2@1.2T', 'frag1', 'dup', '2xinvalid', 'invalid+valid']
 UDP_ONLY = ['icmp', 'senderr-netunreach', 'senderr-hostunreach']
 TCP_ONLY = ['fin', 'rst', 'valid+fin']
 CONNECT = ['ok', 'refused', 'unreachable', 'hang']
